@@ -16,9 +16,9 @@ REPO = '/repo'
 # file, first line, last line, checks, weight
 REGIONS = [
     ('xcmp.hpp', 1692, 1786, 'C01 C08', 2),        # Frame, Symbol, SymbolTable
-    ('xcmp.hpp', 1831, 1999, 'C07 C01', 4),        # ConstProp, OptimiseExpr
-    ('xcmp.hpp', 2048, 2713, 'C01 C08', 14),       # CodeBuffer, expression and statement code generation
-    ('xcmp.hpp', 2714, 3054, 'C01 C08 C15', 8),    # locations, CodeGen, LowerDirectives, OptimiseDirectives
+    ('xcmp.hpp', 1831, 2006, 'C07 C01', 4),        # ConstProp, OptimiseExpr
+    ('xcmp.hpp', 2055, 2720, 'C01 C08', 14),       # CodeBuffer, expression and statement code generation
+    ('xcmp.hpp', 2721, 3061, 'C01 C08 C15', 8),    # locations, CodeGen, LowerDirectives, OptimiseDirectives
     ('xcmp.hpp', 215, 492, 'C01 C09', 4),          # lexer
     ('xcmp.hpp', 1254, 1663, 'C01 C09', 4),        # parser
     ('hexasm.hpp', 335, 420, 'C05 C04 C17', 3),
@@ -64,7 +64,10 @@ def candidates(path, lo, hi):
 def generate(seed, n):
     r = random.Random(seed)
     pool = []
+    only = os.environ.get('AUTOMUT_FILES', '').split()
     for (f, lo, hi, checks, w) in REGIONS:
+        if only and f not in only:
+            continue
         c = candidates(f, lo, hi)
         r.shuffle(c)
         pool.append((f, checks, w, c))
